@@ -9,7 +9,7 @@ ALL = ["C%02d" % i for i in range(1, 21)]
 CHECKS = {
     "C04": {
         "technique": "Lean 4 proof (generic release lemmas for try/finally + closeSrc/closeAll, instantiated per tool, for every world) + model/implementation correspondence + direct oracle on instrumented sources",
-        "text": "Lean theorems C04_<tool> for filter, filterfalse, enumerate, takewhile, dropwhile, starmap, accumulate, batched, islice, pairwise, zip, zip(strict), map, zip_longest, compress, merge, cycle, chain (C04_chain_exhausted: run to its end; C04_chain_closed: closed by its consumer, also inputs never reached) and the aggregations all, any, sum, min/max, reduce, list, tuple, sorted, nlargest/nsmallest: in EVERY world (every input, every fault position in sources/callables, consumer exhausting / closing after any number of items / throwing after any number of items) every source handed to the tool ends Released (async generator: closed, exhausted or finished by its own failure; class-based iterator with aclose: aclose() called or StopAsyncIteration delivered), provided the model did not run out of fuel; Properties/C04Fuel.lean discharges that proviso: 25 corollaries C04_<tool>_total state the release for EVERY world and every fuel >= (sum of the) script length(s) + 1 (Proofs/FuelAdequate.lean proves, with a small Hoare-style calculus over the model's loops, that this much fuel is always adequate; its constant is tight). cycle and sorted release their source although the scope is not their outermost construct (C04_cycle, C04_sorted: what follows the scope never touches a source; C04_cycle_total needs a consumer that ends after finitely many items — cycle diverges otherwise, as in Python). chain ended by an error: C04_chain_raised / C04_chain_owner_close / C04_chain_unreleased_untouched (every source released after the owner's chain.aclose(), untouched before; open finding D19 is exactly the one-step gap); tee and groupby handles are not proved here (tee: C09; set/dict: C04_set, C04_dict and their _total forms). The clean-up helper _core.close_all used by zip / zip_longest / merge / chain.aclose since fix 67a7399 is modelled without H-close in Machines/Cleanup.lean: C04_cleanup_every_iterator_closed (every iterator that has an aclose gets it called exactly once, in order, whatever the others do), C04_cleanup_refines_nested (= leaving nested async-with ScopedIter blocks), C04_cleanup_finally, C04_cleanup_flat_skips_after_first_failure (what the old loop did: D17/D23), compared on every run with the real close_all and with real nested scopes. On every run the real tools are driven over all tools x parameter grid x item sequences x {exhaust, every close cut, every throw cut} x every single fault position with async-generator and class-based sources and the release predicate is checked on the real objects.",
+        "text": "Lean theorems C04_<tool> for filter, filterfalse, enumerate, takewhile, dropwhile, starmap, accumulate, batched, islice, pairwise, zip, zip(strict), map, zip_longest, compress, merge, cycle, chain (C04_chain_exhausted: run to its end; C04_chain_closed: closed by its consumer, also inputs never reached) and the aggregations all, any, sum, min/max, reduce, list, tuple, sorted, nlargest/nsmallest: in EVERY world (every input, every fault position in sources/callables, consumer exhausting / closing after any number of items / throwing after any number of items) every source handed to the tool ends Released (async generator: closed, exhausted or finished by its own failure; class-based iterator with aclose: aclose() called or StopAsyncIteration delivered), provided the model did not run out of fuel; Properties/C04Fuel.lean discharges that proviso: 25 corollaries C04_<tool>_total state the release for EVERY world and every fuel >= (sum of the) script length(s) + 1 (Proofs/FuelAdequate.lean proves, with a small Hoare-style calculus over the model's loops, that this much fuel is always adequate; its constant is tight). cycle and sorted release their source although the scope is not their outermost construct (C04_cycle, C04_sorted: what follows the scope never touches a source; C04_cycle_total needs a consumer that ends after finitely many items — cycle diverges otherwise, as in Python). chain ended by an error: C04_chain_raised / C04_chain_owner_close / C04_chain_unreleased_untouched (every source released after the owner's chain.aclose(), untouched before; open finding D19 is exactly the one-step gap); tee and groupby handles are not proved here (tee: C09; set/dict: C04_set, C04_dict and their _total forms). The clean-up helper _core.close_all used by zip / zip_longest / merge / chain.aclose since fix 67a7399 is modelled without H-close in Machines/Cleanup.lean: C04_cleanup_every_iterator_closed (every iterator that has an aclose gets it called exactly once, in order, whatever the others do), C04_cleanup_refines_nested (= leaving nested async-with ScopedIter blocks), C04_cleanup_finally, C04_cleanup_flat_skips_after_first_failure (what the old loop did: D17/D23), compared on every run with the real close_all and with real nested scopes. chain / chain.from_iterable as OBJECTS are Machines/ChainObj.lean (C04_chain_aclose_closes_all_owned: an accepted aclose closes every owned iterator and the open inner one, in the code's order, an exception of one close not preventing the others; C20_chain_owned_fixed; C18_chain_cancel_releases), compared operation by operation with the real objects (family chainobj: next / aclose / aclose while a fetch runs / cancel over four argument kinds). On every run the real tools are driven over all tools x parameter grid x item sequences x {exhaust, every close cut, every throw cut} x every single fault position with async-generator and class-based sources and the release predicate is checked on the real objects.",
         "note": "Hypothesis H-close (a user aclose() neither raises nor suspends) is carried by the S1 release theorems; the clean-up step itself is proved without it (Machines/Cleanup.lean) and exercised by the oddsrc family (raising aclose / raising __aiter__; D23 fixed, D24 open). The fuel proviso (result is not outOfFuel) is discharged by Properties/C04Fuel.lean for every fuel above the script lengths. Every second class-based source of the harness offers aclose only through __getattr__ (found D22, fixed 8aa46cc). Parameter-validation errors (batched n<1) are outside the property's wording. Known finding D19 (open): chain() raising while later iterables were never started leaves them unreleased until chain.aclose(); the check verifies they are released after the owner's aclose().",
     },
     "C06": {
@@ -24,7 +24,7 @@ CHECKS = {
     },
     "C14": {
         "technique": "Lean 4 proof (induction on the stack; invariant by induction over histories) + model/implementation correspondence",
-        "text": "Lean theorems over a model of ExitStack.__aexit__/push/callback/enter_context/pop_all/aclose: unwinding equals nested async-with for every stack, behaviour and block outcome (C14_nested, C14_order, C14_callback_cannot_suppress); every registered exit runs at most once over every history, failed enters are never exited, pop_all moves exits (C14_once, C14_only_registered, C14_ran_is_gone, C14_popAll, C14_unwind_again). The model is tied to /repo on every run by executing model, real ExitStack, literally nested async-with and contextlib.AsyncExitStack on the same enumerated/random stacks and histories. Exits that touch their own stack while it unwinds (pop_all / push / callback from inside an exit): Machines/ExitStackReentrant.lean models asyncstdlib's and CPython's loops over several stacks; C14_reentrant_refines_contextlib (same log, outcome and final stacks for every script and history), C14_reentrant_once, C14_reentrant_popall_moves / _popall_moved_run_at_close, C14_reentrant_pushed_runs_next, C14_reentrant_conservative (no stack actions => the existing machine); compared 1:1 with both real libraries on the reentrant family.",
+        "text": "Lean theorems over a model of ExitStack.__aexit__/push/callback/enter_context/pop_all/aclose: unwinding equals nested async-with for every stack, behaviour and block outcome (C14_nested, C14_order, C14_callback_cannot_suppress); every registered exit runs at most once over every history, failed enters are never exited, pop_all moves exits (C14_once, C14_only_registered, C14_ran_is_gone, C14_popAll, C14_unwind_again). The model is tied to /repo on every run by executing model, real ExitStack, literally nested async-with and contextlib.AsyncExitStack on the same enumerated/random stacks and histories. Exits that touch their own stack while it unwinds (pop_all / push / callback from inside an exit): Machines/ExitStackReentrant.lean models asyncstdlib's and CPython's loops over several stacks; C14_reentrant_refines_contextlib (same log, outcome and final stacks for every script and history), C14_reentrant_once, C14_reentrant_popall_moves / _popall_moved_run_at_close, C14_reentrant_pushed_runs_next, C14_reentrant_conservative (no stack actions => the existing machine); compared 1:1 with both real libraries on the reentrant family. Managers whose __aenter__ / exits / block SUSPEND, cancelled at any suspension point: Machines/ExitStackEnter.lean (C14_enter_suspended_equals_nested for every manager list and operation sequence), compared with asyncstdlib.ExitStack, literally nested statements and contextlib.AsyncExitStack (family entersusp).",
         "note": "Trusted: Lean kernel; axioms propext/Quot.sound only; the hand-written model is tied to the code by sampled correspondence (exhaustive over the behaviour grid for stacks of <=3 (quick) / <=4 (thorough) entries, random histories). Not modelled: __context__ stitching.",
     },
     "C16": {
